@@ -136,6 +136,20 @@ impl PtSpec {
     }
 }
 
+pub fn fe_one() -> Fe {
+    Fe(F::one())
+}
+
+/// consistent extended representation (X, Y, Z, T1, T2) = (xz, yz, z, x, yz)
+/// of an affine point; z = 1 is the normalised form
+pub fn extended_with_z(p: &Pt, z: &F) -> JubJubExtended {
+    if *z == F::one() {
+        curve::to_extended(p)
+    } else {
+        JubJubExtended::from_raw_unchecked(p.0 * z, p.1 * z, *z, p.0, p.1 * z)
+    }
+}
+
 #[derive(Debug, Clone, Serialize, Deserialize, PartialEq)]
 pub enum Op {
     Wit(Fe),
@@ -238,6 +252,10 @@ pub enum Op {
     MulGenerator {
         s: Fe,
         gen: Fe,
+        /// Z coordinate of the (consistent) extended representation the
+        /// generator is handed over in (1 = normalised)
+        #[serde(default = "fe_one")]
+        z: Fe,
     },
     /// hook: `assert_torsion_free_gates(point, q)` on an untyped point with
     /// an attacker-chosen auxiliary point given by raw coordinates
@@ -250,6 +268,8 @@ pub enum Op {
         s: Fe,
         gen: Fe,
         digits: Vec<i8>,
+        #[serde(default = "fe_one")]
+        z: Fe,
     },
     /// hook-only: arithmetic row with arbitrary q_arith
     RawArith {
@@ -879,7 +899,7 @@ pub fn run_ops(
                 };
                 t.push_pt(r, m, member, oi);
             }
-            Op::MulGenerator { s, gen } => {
+            Op::MulGenerator { s, gen, z } => {
                 let sv = if solve {
                     reduce_rj(&s.0)
                 } else {
@@ -892,7 +912,8 @@ pub fn run_ops(
                 let g = curve::gmul(&k);
                 let w = c.append_witness(sv);
                 t.push(w, sv, oi);
-                let r = c.component_mul_generator(w, curve::to_extended(&g))?;
+                let zz = if z.0 == F::zero() && solve { F::one() } else { z.0 };
+                let r = c.component_mul_generator(w, extended_with_z(&g, &zz))?;
                 let m = curve::mul_f(&sv, &g).unwrap_or(curve::identity());
                 t.push_tf(r, m, oi);
             }
@@ -901,7 +922,7 @@ pub fn run_ops(
                 let qa = dusk_jubjub::JubJubAffine::from_raw_unchecked(q.0 .0, q.1 .0);
                 c.verif_assert_torsion_free_gates(t.pts[p], qa);
             }
-            Op::FixedSeam { s, gen, digits } => {
+            Op::FixedSeam { s, gen, digits, z } => {
                 let mut k = reduce_rj(&gen.0);
                 if k == F::zero() {
                     k = F::one();
@@ -914,7 +935,7 @@ pub fn run_ops(
                 for (i, x) in digits.iter().take(256).enumerate() {
                     d[i] = *x;
                 }
-                let r = c.verif_fixed_base_signed_digits(w, curve::to_extended(&g), &d)?;
+                let r = c.verif_fixed_base_signed_digits(w, extended_with_z(&g, &z.0), &d)?;
                 // model: the point the digits encode
                 let mut acc = curve::identity();
                 for x in d.iter().rev() {
@@ -1161,7 +1182,7 @@ pub fn medium_op() -> BoxedStrategy<Op> {
 /// ops costing 300-2100 gates
 pub fn heavy_op() -> BoxedStrategy<Op> {
     prop_oneof![
-        3 => (fe_any(), fe_random()).prop_map(|(s, gen)| Op::MulGenerator { s, gen }),
+        3 => (fe_any(), fe_random(), prop_oneof![2 => Just(fe_one()), 1 => Just(Fe(F::from(2u64))), 2 => crate::fe::fe_nonzero()]).prop_map(|(s, gen, z)| Op::MulGenerator { s, gen, z }),
         1 => (fe_any(), r16()).prop_map(|(s, p)| Op::MulPoint { s, p }),
         2 => (1u16..=256, fe_any()).prop_map(|(n, v)| Op::Decompose { n, v }),
     ]
@@ -1179,4 +1200,36 @@ pub fn ops_strategy(max_ops: usize, medium: u32, heavy: u32) -> BoxedStrategy<Ve
     }
     let op = proptest::strategy::Union::new_weighted(arms);
     proptest::collection::vec(op, 0..=max_ops).boxed()
+}
+
+/// With probability ~`per_mille`/1000, insert a run of `append_public` calls
+/// (counts around the multiples of 16 and 32 where batched / chunked
+/// evaluation code changes strategy; a fifth of the values zero) at a
+/// generated position of the program.
+pub fn with_pi_burst(base: BoxedStrategy<Vec<Op>>, per_mille: u32) -> BoxedStrategy<Vec<Op>> {
+    let counts = prop_oneof![
+        Just(15usize), Just(16usize), Just(17usize), Just(31usize), Just(32usize), Just(33usize), Just(34usize),
+        Just(40usize), Just(47usize), Just(48usize), Just(49usize), Just(63usize), Just(64usize), Just(65usize), Just(100usize),
+        8usize..130,
+    ];
+    let burst = (counts, any::<u64>(), any::<u16>()).prop_map(|(n, seed, pos)| {
+        let vals = crate::fe::f_stream(seed, n);
+        let ops: Vec<Op> = vals
+            .iter()
+            .enumerate()
+            .map(|(i, v)| Op::Public(Fe(if (seed >> (i % 60)) & 7 == 0 { F::zero() } else { *v })))
+            .collect();
+        (ops, pos)
+    });
+    (base, proptest::option::weighted(per_mille as f64 / 1000.0, burst))
+        .prop_map(|(mut ops, b)| {
+            if let Some((burst, pos)) = b {
+                let at = pick(pos, ops.len() + 1);
+                for (i, o) in burst.into_iter().enumerate() {
+                    ops.insert(at + i, o);
+                }
+            }
+            ops
+        })
+        .boxed()
 }
